@@ -97,6 +97,7 @@ func (fc *FuncContract) Mod(profile string) *ModClause {
 // GhostFn: an integer ghost function defined point-wise, one point per loop
 // iteration: at the head of the iteration, NAME(Idx) is defined as Val.
 type GhostFn struct {
+	Ty       string // "" (int) or "string"
 	Name     string
 	Idx, Val Expr
 	Text     string
@@ -698,7 +699,8 @@ func (cs *ContractSet) addClause(fc *FuncContract, t, file string, line int) err
 			if err != nil {
 				return fmt.Errorf("%s:%d: %v", file, line, err)
 			}
-			lc.GhostFns = append(lc.GhostFns, &GhostFn{Name: strings.TrimSpace(srest[:i]), Idx: idx, Val: val, Text: srest})
+			gty := strings.TrimSpace(srest[j+1 : k]) // optional result type between ")" and "=": string (default int)
+			lc.GhostFns = append(lc.GhostFns, &GhostFn{Name: strings.TrimSpace(srest[:i]), Idx: idx, Val: val, Text: srest, Ty: gty})
 		case "modifies":
 			props, _, r := parseTags(srest)
 			lc.HasModifies = true
